@@ -362,6 +362,8 @@ class XlaWalker(Walker):
         """evaluate a C++ constant expression over FloatType = dt"""
         fi = numpy.finfo(dt)
         if isinstance(t, Lit):
+            if t.text.isdigit():
+                return int(t.text)  # a C++ int literal: int / int is an integer division
             return dt(float(t.text.rstrip("fFlL")))
         if isinstance(t, Ref) and t.name == "M_PI":
             return dt(math.pi)
@@ -379,7 +381,15 @@ class XlaWalker(Walker):
         if isinstance(t, Node):
             a = [self.ceval(o, dt) for o in t.operands]
             with numpy.errstate(all="ignore"):
+                if t.op in ("+", "-", "*", "/") and all(type(v_) is int for v_ in a):
+                    if t.op == "/":
+                        if a[1] == 0:
+                            raise ZeroDivisionError("integer division by zero in a compile-time constant")
+                        q_ = abs(a[0]) // abs(a[1])
+                        return q_ if (a[0] >= 0) == (a[1] >= 0) else -q_  # truncation toward zero
+                    return {"+": a[0] + a[1], "-": a[0] - a[1], "*": a[0] * a[1]}[t.op]
                 if t.op in ("+", "-", "*", "/"):
+                    a = [dt(v_) for v_ in a]
                     return dt({"+": a[0] + a[1], "-": a[0] - a[1], "*": a[0] * a[1], "/": a[0] / a[1]}[t.op])
                 if t.op in ("<", "<=", ">", ">=", "==", "!="):
                     return {"<": a[0] < a[1], "<=": a[0] <= a[1], ">": a[0] > a[1], ">=": a[0] >= a[1], "==": a[0] == a[1], "!=": a[0] != a[1]}[t.op]
@@ -388,9 +398,9 @@ class XlaWalker(Walker):
                 if t.op in ("&&", "||"):
                     return (a[0] and a[1]) if t.op == "&&" else (a[0] or a[1])
                 if t.op == "u-":
-                    return dt(-a[0])
+                    return -a[0] if type(a[0]) is int else dt(-a[0])
                 if t.op == "u+":
-                    return dt(a[0])
+                    return a[0] if type(a[0]) is int else dt(a[0])
                 if t.op.startswith("std::numeric_limits<"):
                     member = t.op.split("::")[-1]
                     return dt({"max": fi.max, "min": fi.smallest_normal, "infinity": numpy.inf, "epsilon": fi.eps, "quiet_NaN": numpy.nan, "denorm_min": fi.smallest_subnormal, "lowest": -fi.max}[member])
@@ -404,7 +414,7 @@ class XlaWalker(Walker):
                     return dt(a[0])
                 if fn is None:
                     raise NotImplementedError(t.op)
-                return dt(fn(*a))
+                return dt(fn(*[dt(v_) for v_ in a]))
         raise NotImplementedError(repr(t)[:60])
 
 
@@ -490,6 +500,7 @@ def unit_programs(target, complex_ok=True):
     out.append(("const:negative-zero", (lambda ctx, a: ctx.atan2(ctx.constant(-0.0, a), a) + ctx.atan2(ctx.constant(0.0, a), a)), ["float"]))
     out.append(("const:complex-like", (lambda ctx, z, a: ctx.real(z) * ctx.constant(2.5, ctx.real(z)) + a), ["complex", "float"]))
     out.append(("const:complex-typed", (lambda ctx, z: z * ctx.constant(2.0, z)), ["complex"]))
+    out.append(("const:integer-literals-divided", (lambda ctx, a: a * (ctx.constant(1, a) / ctx.constant(3, a)) + ctx.constant(7, a) / ctx.constant(2, a)), ["float"]))
     out.append(("shared", (lambda ctx, a, b: (lambda t: (t * t + t) / (t - b))(a * b + a)), ["float", "float"]))
     out.append(("shared-constant", (lambda ctx, a, b: (lambda c: (a + c) * (b - c) + c)(ctx.constant(3.5, a))), ["float", "float"]))
     out.append(("operand-order", (lambda ctx, a, b: ctx.select(a < b, a - b, b / a) - ctx.atan2(b, a)), ["float", "float"]))
